@@ -121,6 +121,12 @@ def run_impl(case):
     n = case["n"]
     x = jnp.repeat(jnp.arange(n, dtype=float)[:, None], XCOLS, 1)
     c = (COND_TAG + x) if case["has_cond"] else None
+    # array dtypes: the rows are data, whatever their dtype (float x with integer class labels as condition is ordinary usage;
+    # seeded change C15c shuffled only the floating-point arrays)
+    dts = case.get("dtypes") or ["float", "float"]
+    x = x.astype(jnp.int32) if dts[0] == "int" else x
+    if c is not None and dts[1] == "int":
+        c = c.astype(jnp.int32)
     _seen.clear()
     raised, final_p = None, None
     try:
@@ -363,6 +369,10 @@ def gen_cases(ctx):
         vp, bs = [(0.0, int(r.integers(1, 4))), (1.0, int(r.integers(1, 4))), (gen_val_prop(r, max(n, 2)), 0)][int(r.integers(3))]
         cases.append(dict(n=n, bs=bs, val_prop=float(vp), has_cond=bool(r.integers(2)), epochs=int(r.integers(0, 3)),
                           seed=int(r.integers(0, 2 ** 31 - 1)), typed_key=False))
+    # array dtypes: a fifth of the cases with integer x and/or integer condition (jit cache: one more bucket per combination)
+    for c in cases:
+        if r.random() < 0.2:
+            c["dtypes"] = [["float", "int"], ["int", "float"], ["int", "int"]][int(r.integers(3))] if c["has_cond"] else ["int", "float"]
     return cases
 
 
